@@ -162,6 +162,10 @@ def predict_set(tree: TNode, segs: list[str], value_tokens) -> Prediction:
         return Prediction("either" if mixed else "ok", t, fresh=True, shape=shape,
                           created_root=created_root)
     if existing.kind == "leaf":
+        if existing.tokens and existing.tokens[0][0] == "inherit":
+            # the name is defined by an `inherit` clause: a binding next to it would be a second
+            # definition (not valid Nix); the edit has to be refused
+            return Prediction("ValueError", None, shape="inherited-leaf", reason="name is inherited")
         cur.children[last] = _value_node(value_tokens)
         return Prediction("either" if mixed else "ok", t, shape=shape)
     cur.children[last] = _value_node(value_tokens)
@@ -202,6 +206,10 @@ def predict_rm(tree: TNode, segs: list[str]) -> Prediction:
         return Prediction("either" if mixed else "KeyError", shape=shape, reason="missing key")
     if shape == "mixed":
         return Prediction("either", None, shape=shape)
+    if existing.kind == "leaf" and existing.tokens and existing.tokens[0][0] == "inherit":
+        # not a binding of its own: KeyError (what the library does) or taking the name out of
+        # the inherit clause are both defensible
+        return Prediction("either", None, shape="inherited-leaf")
     refusable = shape == "attrpath-set"
     del cur.children[last]
     # prune attrpath-derived parents left empty
